@@ -10,7 +10,7 @@ E == TraceLog[l]
 TraceInit == TraceLog[1].ev = "Reset" /\ InitWith(TraceLog[1].scen) /\ l = 2
 TReset == /\ Ev("Reset")
           /\ scen' = E.scen /\ sent' = "none" /\ wire' = <<>> /\ sseg' = 0 /\ sclosed' = FALSE
-          /\ inflight' = <<>> /\ rbuf' = <<>> /\ res' = <<>> /\ cut' = <<>>
+          /\ inflight' = <<>> /\ rbuf' = <<>> /\ res' = <<>> /\ cut' = <<>> /\ again' = 0
 TSendEnd == /\ Ev("SendEnd") /\ Send /\ sent' = E.res
 (* what the raw server found on the wire: one frame of the right shape with exactly the requested flags *)
 TSrvGot == /\ Ev("SR") /\ sent = "ok"
@@ -18,6 +18,7 @@ TSrvGot == /\ Ev("SR") /\ sent = "ok"
            /\ E.method_ok /\ E.tok_ok /\ E.valid_json /\ E.is_object /\ E.nul_count = 1 /\ E.nul_at_end
            /\ UNCHANGED vars
 TSrvNone == /\ Ev("SRNONE") /\ sent = "refused" /\ wire = <<>> /\ E.bytes = 0 /\ UNCHANGED vars
+TSendAgain == Ev("SA") /\ SendAgain
 TSrvWrite == /\ Ev("SW") /\ SrvWrite /\ scen.segs[sseg + 1] = E.n
 TSrvClose == /\ Ev("SC") /\ SrvClose
 TRecvEnd == /\ Ev("RE") /\ (RecvFrame \/ RecvEOF)
@@ -25,7 +26,7 @@ TRecvEnd == /\ Ev("RE") /\ (RecvFrame \/ RecvEOF)
                  /\ r.k = E.kind /\ r.continues = E.continues /\ r.name = E.name
                  /\ r.typed = E.typed /\ r.field = E.field /\ r.tok = E.tok
 Silent == CFill /\ UNCHANGED l
-TraceNext == TReset \/ TSendEnd \/ TSrvGot \/ TSrvNone \/ TSrvWrite \/ TSrvClose \/ TRecvEnd \/ Silent
+TraceNext == TReset \/ TSendAgain \/ TSendEnd \/ TSrvGot \/ TSrvNone \/ TSrvWrite \/ TSrvClose \/ TRecvEnd \/ Silent
 TraceSpec == TraceInit /\ [][TraceNext]_tvars
 ASSUME TLCSet(1, 0)
 HighWater == /\ IF l > TLCGet(1) THEN TLCSet(1, l) ELSE TRUE
